@@ -84,6 +84,8 @@ ALWAYS_INLINE = {
     "ttl::cleanup_bucket",                            # storage_bucket(t) - 1
     "cache::sync::Item::is_update",                   # matches!(self, Item::Update { .. })
     "cache::r#async::Item::is_update",
+    "cache::sync::CacheProcessor::track_admission",   # metrics.add(KeyAdd, key, 1) + the start_ts bookkeeping
+    "cache::r#async::CacheProcessor::track_admission",
 }
 
 
@@ -152,6 +154,17 @@ class Facts:
             mod = sp.split("::")[0]
             cands = [m for m, v in missing.items() if m.split("::")[-1] == name and m.split("::")[0] == mod and v["sig"] == b.get("sig", "") and m not in fn_map.values()]
             if len(cands) == 1:
+                fn_map[sp] = cands[0]
+        # renamed and moved at once (`get_size(n)` -> `Size::for_entries(n)`): the only new function of the module
+        # with that signature, for the only missing reference function of the module with that signature
+        for sp, b in present.items():
+            if sp in kf or sp in fn_map or not b["span"]["f"].startswith("src/") or "::test" in sp or not b.get("sig"):
+                continue
+            mod = sp.split("::")[0]
+            cands = [m for m, v in missing.items() if m.split("::")[0] == mod and v["sig"] == b.get("sig", "") and m not in fn_map.values()]
+            rivals = [sp2 for sp2, b2 in present.items() if sp2 not in kf and sp2 not in fn_map and sp2.split("::")[0] == mod and b2.get("sig") == b.get("sig")
+                      and b2["span"]["f"].startswith("src/") and "::test" not in sp2]
+            if len(cands) == 1 and rivals == [sp]:
                 fn_map[sp] = cands[0]
         # field renames
         fld_map = {}  # (owner adt path, variant idx, field idx) -> (new name, reference name)
@@ -296,6 +309,20 @@ class Facts:
                             b["root"] = fc["root"]
             res.append(b)
         self.inlined_helpers = sorted(helpers)
+        # `helper(..).await` on an async helper: its shell was inlined above (the caller now builds the helper's
+        # coroutine itself); splice the coroutine's body in where it is polled
+        co = {}
+        for b in res:
+            if b.get("coroutine") and b["defkind"] not in ("Fn", "AssocFn"):
+                fn_ = re.sub(r"::\{closure#\d+\}$", "", strip_generics(b["path"]))
+                if fn_ in helpers and strip_generics(b["path"]).endswith("{closure#0}"):
+                    co[strip_generics(b["path"])] = b
+        if co:
+            res2 = []
+            for b in res:
+                nb, n_ = flatten.inline_awaited(b, lambda d_: co.get(strip_generics(d_ or "")))
+                res2.append(nb if n_ else b)
+            res = res2
         return res
 
     def flat(self, body):
@@ -335,6 +362,24 @@ class Facts:
         if len(c) == 1:
             return c[0]
         raise AnchorMissing("closure body %r: %d candidates" % (defpath, len(c)))
+
+    def const_init(self, name):
+        """Initialiser expression of a crate constant whose value rustc did not give as an integer, when it is a
+        closed expression (another constant, a call on constants); None otherwise."""
+        if not hasattr(self, "_const_init"):
+            self._const_init = {}
+        if name in self._const_init:
+            return self._const_init[name]
+        self._const_init[name] = None
+        if name in self.consts:
+            for b in self.by_spath.get(strip_generics(name), []) + self.by_path.get(name, []):
+                defs = b.defs.get(0, [])
+                if len(defs) == 1 and not b.arg_count:
+                    e = norm(b.def_expr(defs[0][0], defs[0][1], True))
+                    if not any(x[0] in ("var", "tmp") for x in subexprs(e)):
+                        self._const_init[name] = e
+                    break
+        return self._const_init[name]
 
     def const_value(self, name):
         c = self.consts.get(name)
@@ -614,6 +659,10 @@ class Body:
                 v = self.facts.consts.get(op["named"], {}).get("v")
                 if v is not None:
                     return ("const", v, op["ty"])
+                # a named constant of the crate stands for its initialiser (`const NO_TTL: Duration = Duration::ZERO`)
+                init = self.facts.const_init(op["named"]) if depth < 40 else None
+                if init is not None:
+                    return init
                 return ("named", op["named"])
             return ("cstr", op["s"])
         return ("unknown", str(op))
@@ -661,6 +710,20 @@ class Body:
                 return args[0]
         if callee is None:
             return ("icall", self.operand_expr(t["fnop"], expand_vars, depth), args)
+        # other spellings of a plain value: `u8::default()` is 0, `Duration::default()` is Duration::ZERO,
+        # `i64::from(x)` / `x.into()` between integer types is the lossless `x as i64`
+        m = _DEFAULT_OF.match(callee)
+        if m and not args:
+            ty = m.group(1)
+            if ty in _INT_TYS:
+                return ("const", 0, ty)
+            if ty == "bool":
+                return ("const", 0, "bool")
+            if ty == "std::time::Duration":
+                return ("named", "std::time::Duration::ZERO")
+        m = _NUM_FROM.match(callee)
+        if m and len(args) == 1 and m.group(1) in _INT_TYS and m.group(2) in _INT_TYS:
+            return ("cast", m.group(2), args[0])
         return ("call", strip_generics(callee), args)
 
     def expand(self, e):
@@ -816,6 +879,13 @@ def norm(e):
                 return b_[3][int(e[2])]
             if b_[1] == "adt" and b_[4] and e[2] in b_[4] and len(b_[4]) == len(b_[3]):
                 return b_[3][list(b_[4]).index(e[2])]
+        # the payload of an enum value that is in sight: (Poll::Ready(x) as Ready).0 == x
+        if b_[0] == "downcast" and isinstance(e[2], str) and b_[1][0] == "agg" and b_[1][1] == "adt" and str(b_[1][2]).endswith("::" + str(b_[2])):
+            ag = b_[1]
+            if ag[4] and e[2] in ag[4] and len(ag[4]) == len(ag[3]):
+                return ag[3][list(ag[4]).index(e[2])]
+            if e[2].isdigit() and int(e[2]) < len(ag[3]):
+                return ag[3][int(e[2])]
         return ("field", b_, e[2])
     if k == "call":
         args = tuple(norm(x) for x in e[2])
@@ -844,9 +914,10 @@ def norm(e):
         if x[0] == "call" and isinstance(x[1], str) and x[1].endswith("Try>::branch") and "option::Option" in x[1] and len(x[2]) == 1 and e[2] in ("Continue", "Break"):
             return ("variant", x[2][0], "Some" if e[2] == "Continue" else "None")
         # map / map_err keep the variant of the value they are applied to
-        while x[0] == "call" and len(x[2]) == 2 and e[2] in ("Ok", "Err", "Some", "None") and \
-                re.search(r"(^|::)(Result|Option)(::<[^>]*>)?::(map|map_err|inspect|inspect_err)$", x[1]):
-            x = x[2][0]
+        while x[0] == "call" and e[2] in ("Ok", "Err", "Some", "None") and (
+                (len(x[2]) == 2 and re.search(r"(^|::)(Result|Option)(::<[^>]*>)?::(map|map_err|inspect|inspect_err)$", x[1])) or
+                (len(x[2]) == 1 and re.search(r"(^|::)(Result|Option)(::<[^>]*>)?::(as_ref|as_mut|as_deref|as_deref_mut|cloned|copied)$", x[1]))):
+            x = norm(x[2][0])
         return ("variant", x, e[2])
     if k == "icall":
         return ("icall", norm(e[1]), tuple(norm(x) for x in e[2]))
@@ -1015,6 +1086,11 @@ def edge_literals(body, bi):
 # --------------------------------------------------------------------------------------
 # path-sensitive dataflow
 # --------------------------------------------------------------------------------------
+
+_INT_TYS = ("u8", "u16", "u32", "u64", "u128", "usize", "i8", "i16", "i32", "i64", "i128", "isize")
+_DEFAULT_OF = re.compile(r"^<([\w:]+) as (?:std|core)::default::Default>::default$")
+_NUM_FROM = re.compile(r"^(?:std|core)::convert::num::<impl (?:std|core)::convert::From<(\w+)> for (\w+)>::from$")
+
 
 class TooManyStates(Exception):
     pass
